@@ -34,20 +34,25 @@ TRUSTED = ['Model/Relabel.v: hand-written Gallina model of relabeling.py (prepar
 ASSUMPTIONS = ['existing positions are sorted and no position or request is NaN (Pre); legacy lists with duplicates or '
                'infinities are inside the quantifier for order/placement, "all rows distinct and finite" is claimed '
                'only when the existing rows were (test_relabeling.test_with_dups pins that duplicates are left alone)',
-               'C20_total (no exception and Spec for every input) is refuted on the unchanged tree by three inputs '
-               '(known findings) and otherwise not proved in general: every explored input gets its own kernel-checked '
-               'certificate from C20_checker_sound instead']
+               'C20_total_stmt (no exception and Spec for every input) is refuted on the unchanged tree by four inputs '
+               '(known findings); proved on the append, no-renumbering and renumber-all-front paths; on the partial '
+               'renumbering path every explored input gets its own kernel-checked certificate from C20_checker_sound',
+               'theorems about the no-renumbering path assume the existing positions are doubles (wf_fl: what decode '
+               'produces) and fewer than 2^53 requests']
 
 TECHNIQUE = ('Coq proofs over a hand-written bit-exact model (integer model of binary64) + differential cases with '
              'vm_compute + certified result checker evaluated in Coq per case + whole-engine histories')
-LEVEL_TEXT = ('Kernel-checked for all inputs: soundness of the result checker w.r.t. the property postcondition, '
-              'ungroup order, preservation of distinct finite positions over any history of additions/moves/removals '
-              'whose results satisfy Spec, the renumber-all range is 1..n, total correctness of the model on the '
-              'append/empty-table path, on the single-group renumber-all path and on every input that takes the '
-              'no-renumbering path; refutation of the unrestricted total statement by three concrete inputs.')
-LEVEL_NOTE = ('The general total-correctness statement (C20_total_stmt) stays a Definition: the adaptation of list '
-              'labeling to doubles (range doubling / thresholds) is not proved to terminate without exception; the '
-              'per-case certificates cover what the search explores.')
+LEVEL_TEXT = ('Kernel-checked for all inputs: soundness of the result checker w.r.t. the property postcondition; '
+              'ungroup/_group_insertions order and assignment; preservation of distinct finite positions over any '
+              'history of additions/moves/removals whose results satisfy Spec; the renumber-all range is 1..N; total '
+              'correctness of the model (no exception and Spec) on (i) the append/empty-table path, (ii) EVERY input '
+              'that takes the no-renumbering path, derived from the implementation\'s own is_valid_range test via '
+              'monotonicity of IEEE rounding, (iii) the simple renumber-all path (requests before an invalid first '
+              'row); refutation of the unrestricted total statement by four concrete inputs.')
+LEVEL_NOTE = ('The general total-correctness statement stays a Definition (C20_total_restricted_stmt): for the partial '
+              'renumbering path (_find_sparse_enough_range/_adjust_range: doubling ranges, thresholds 1.14^i/1.3^i) '
+              'neither absence of exceptions nor Spec is proved; those inputs are covered by the per-case certificates '
+              '(checker evaluated in Coq on every implementation result) and the bit-exact model correspondence.')
 
 INF = float('inf')
 MINNORMAL = 2.2250738585072014e-308
@@ -449,6 +454,8 @@ def op_cases(ctx):
                                              hzlist([b(v) if isinstance(v, float) else v for v in res])))
   for _ in range(ctx.n(600, 20000)):
     x, y = rnd_float(), rnd_float()
+    if x != x or y != y:
+      continue                    # NaN operands are outside the model (it keeps a single NaN)
     if rng.random() < 0.2:
       y = rng.choice([x, nf(x) if math.isfinite(x) else x, -x])
     op = rng.choice([0, 1, 2, 3, 4, 5, 6, 7, 8, 9, 10, 11])
